@@ -548,11 +548,11 @@ fn write_olde_ecl(
     match format.timeline_array_kind() {
         | TimelineArrayKind::Pofv { .. }
         | TimelineArrayKind::Pcb { .. } => {
-            w.write_u16(ecl.subs.len() as _)?;
-            w.write_u16(ecl.timelines.len() as _)?;
+            w.write_u16(crate::io::checked_field(emitter, "number of subs", ecl.subs.len() as i64)?)?;
+            w.write_u16(crate::io::checked_field(emitter, "number of timelines", ecl.timelines.len() as i64)?)?;
         },
         | TimelineArrayKind::Eosd { .. } => {
-            w.write_u16(ecl.subs.len() as _)?;
+            w.write_u16(crate::io::checked_field(emitter, "number of subs", ecl.subs.len() as i64)?)?;
             w.write_u16(0)?;
         },
     };
